@@ -50,6 +50,7 @@ func FloorToPowerOfTwo(n int) int {
 	n |= n >> 4
 	n |= n >> 8
 	n |= n >> 16
+	n |= n >> (bitSize / 2) // covers the upper half of a 64-bit int
 
 	return n - (n >> 1)
 }
